@@ -454,13 +454,21 @@ impl AdjacencySpec for Adjacency {
 static TIMEOUTS: AtomicUsize = AtomicUsize::new(0);
 
 fn exec_lkh(case: &Value) -> Value {
-    // after repeated timeouts the remaining LKH cases are not started (their threads would never end)
-    if TIMEOUTS.load(Ordering::SeqCst) >= 3 {
+    // after three timeouts the remaining LKH cases get one second only (their verdict is then "not run" instead of
+    // "timeout"), after ten they are not started: every timed-out call leaves a spinning thread behind
+    let timeouts = TIMEOUTS.load(Ordering::SeqCst);
+    if timeouts >= 10 {
         return json!({"not_run": true});
     }
     let adjacency = Adjacency { c: matrix(&case["c"]), nb: case["nb"].as_array().unwrap().iter().map(usizes).collect() };
     let path = usizes(&case["path"]);
-    let limit = Duration::from_secs(if path.len() <= 12 { 20 } else { 60 });
+    let limit = Duration::from_secs(if timeouts >= 3 {
+        1
+    } else if path.len() <= 12 {
+        20
+    } else {
+        60
+    });
     let (tx, rx) = mpsc::channel();
     std::thread::Builder::new()
         .stack_size(64 * 1024 * 1024)
@@ -476,7 +484,7 @@ fn exec_lkh(case: &Value) -> Value {
         Ok(Err(msg)) => json!({"panic": msg}),
         Err(_) => {
             TIMEOUTS.fetch_add(1, Ordering::SeqCst);
-            json!({"timeout": true})
+            if timeouts >= 3 { json!({"not_run": true}) } else { json!({"timeout": true}) }
         }
     }
 }
